@@ -1,9 +1,15 @@
 ---------------------------- MODULE Gen_TemplateLang ----------------------------
 (* Template enumeration: every reachable state is one test case (cfg, src) carrying the
-   specification's result res.  "main" grows token by token; a template whose ParseError is
-   final (raised at a tag, so every extension raises the same error) is not extended. *)
+   specification's result res.  "main" grows token by token up to the family's bound.  A
+   template whose ParseError is final (raised at a tag: every extension raises the same error)
+   is not extended by arbitrary tokens, but it is still closed by up to two {% end %} tags
+   beyond the bound - so that a compiler which wrongly accepts the offending tag is carried to
+   a complete template and observed, instead of agreeing by accident on "missing end". *)
 EXTENDS TemplateLang
-Extendable == res.kind # "parse" \/ res.soft
-GenNext == Extendable /\ Next
-GenSpec == InitState /\ [][GenNext]_<<vars, step>>
+VARIABLE dead        \* number of tokens appended since the first final ParseError
+Hard(r) == r.kind = "parse" /\ ~r.soft
+GenInit == InitState /\ dead = 0
+GenNext == \/ dead = 0 /\ Next /\ dead' = (IF Hard(res') THEN 1 ELSE 0)
+           \/ dead \in 1..2 /\ AddFree("end") /\ dead' = dead + 1
+GenSpec == GenInit /\ [][GenNext]_<<vars, step, dead>>
 =============================================================================
